@@ -7,6 +7,7 @@ package main
 import (
 	"context"
 	"fmt"
+	"google.golang.org/protobuf/encoding/protowire"
 	"strings"
 
 	"google.golang.org/protobuf/proto"
@@ -41,7 +42,17 @@ func (c mcase) key() string {
 	return fmt.Sprintf("%s mask=%s", c.Via, m)
 }
 
-var cat = lib.Catalogue()
+// the shared catalogue plus one message that carries fields this program does not know (written by a newer
+// client): a read mask selects known fields, so what is not known is not selected
+var cat = func() []*lib.T {
+	c := lib.Catalogue()
+	u := proto.Clone(c[len(c)-1]).(*lib.T)
+	u.ProtoReflect().SetUnknown(protowire.AppendVarint(protowire.AppendTag(nil, 9000, protowire.VarintType), 7))
+	if u.DefaultNestedMessage != nil {
+		u.DefaultNestedMessage.ProtoReflect().SetUnknown(protowire.AppendVarint(protowire.AppendTag(nil, 9001, protowire.VarintType), 8))
+	}
+	return append(c, u)
+}()
 
 func guarded(f func()) (p any) {
 	defer func() { p = recover() }()
